@@ -13,6 +13,7 @@ UNITS = [
     (M, "Broker.__getitem__"),
     (M, "Broker.get"),
     (M, "run_components"),
+    (M, "run@evaluate"),
 ]
 
 # C01-L1: contracts only.  `ordered` is what run_order returned for `graph`; att/attpos is the attempt log that
@@ -39,8 +40,9 @@ LEMMAS = [dict(
         "forall(c, seeds, c in final and final[c] == seeds[c])",
     ])]
 NOT_CARRIED = ["a component body that itself writes Broker.instances (bodies are an assumed contract)",
-               "dr.run's own body (argument normalisation and the SerializedArchiveContext pruning branch) is not under contract; "
-               "the lemma composes run_order and run_components as dr.run's last line does",
+               "dr.run: the body from the SerializedArchiveContext pruning branch to the end is under contract (run@evaluate: at most once, a "
+               "dependency never attempted after its dependent, seeds kept, the evaluated graph is a sub-graph of the given one); the three "
+               "argument-normalisation lines before it (default group, determine_components, default broker) are not executed",
                "get_dependency_graph / walk_dependencies (closure over mutable state): not under contract"]
 
 
